@@ -7,6 +7,7 @@ mod driver;
 mod machine;
 mod model;
 mod prng;
+mod proggen;
 mod scenario;
 mod setup;
 mod shrink;
